@@ -16,14 +16,14 @@ VARIABLES l, written, pos, inv, layout, windows, sorted, fin, drift
 tvars == <<l, written, pos, inv, layout, windows, sorted, fin, drift>>
 
 TraceInit == l = 1 /\ written = <<>> /\ pos = <<>> /\ inv = <<>> /\ layout = <<>> /\ windows = <<>>
-             /\ sorted = FALSE /\ fin = FALSE /\ drift = 0
+             /\ sorted = <<>> /\ fin = FALSE /\ drift = 0
 
 IsEvent(e) == l <= Len(Rec) /\ Rec[l].ev = e /\ l' = l + 1
 
 TraceScn ==
   /\ IsEvent("Scn")
   /\ written' = <<>> /\ pos' = <<>> /\ inv' = <<>> /\ layout' = <<>> /\ windows' = <<>>
-  /\ sorted' = Rec[l].sorted /\ fin' = FALSE /\ UNCHANGED drift
+  /\ sorted' = Rec[l].sortKeys /\ fin' = FALSE /\ UNCHANGED drift   \* sortKeys: names, <<>> = unsorted
 
 TraceEntry ==
   /\ IsEvent("Entry") /\ ~fin
@@ -41,7 +41,7 @@ TraceHandles ==
        /\ {p[j] : j \in 1..n} = 0..(n - 1)
        /\ pos' = p
        /\ inv' = [q \in 1..n |-> CHOOSE j \in 1..n : p[j] = q - 1]
-       /\ drift' = drift + (IF ~sorted /\ \E j \in 1..n : p[j] # j - 1 THEN 1 ELSE 0)
+       /\ drift' = drift + (IF sorted = <<>> /\ \E j \in 1..n : p[j] # j - 1 THEN 1 ELSE 0)
   /\ UNCHANGED <<written, layout, windows, sorted, fin>>
 
 (* ---------------------------------------------------------------- layout sufficiency *)
